@@ -247,7 +247,8 @@ Qed.
    and the memdb-insertion half of db_write.go / journal recovery: Batch.Put/Delete (appendRec), Dump, Load
    (decodeBatch), Replay, the 12-byte header, writeBatchesWithHeader = the ONE journal record of a merged group,
    Batch.putMem, decodeBatchToMem, the per-record step of recoverJournal).  Go ints are 64-bit with the wrap
-   written out; panics, non-termination (fuel) and corruption errors are explicit results. *)
+   written out; panics, non-termination (fuel) and corruption errors are explicit results (and proved absent
+   where the theorems say so). *)
 From GL Require Import Codec.Batch Codec.BatchProofs Codec.BatchCutProofs Codec.BatchGroupProofs Lsm.BatchWriteProofs
   Lsm.ReorgProofs Gen.Consts.
 From GL Require Mem.MemSpec.
@@ -274,17 +275,15 @@ Theorem C01_batch_roundtrip : forall p, kparams_ok p -> forall recs,
 Proof. exact batch_roundtrip. Qed.
 Print Assumptions C01_batch_roundtrip.
 
-(* (6b) The decoder on other bytes.  FULL STATEMENT WANTED: "on arbitrary bytes Batch.Load returns records or
-   an error, never panics, always terminates".  That statement is FALSE for the code (and for the model, which
-   follows it): a uvarint length field >= 2^63 - offset wraps the int offset, see
-   C01_batch_decode_total_refuted.  Proved instead, _partial: for every byte string none of whose length
-   fields (read at any offset) reaches 2^63 together with the data's length, Load returns a batch or a
-   corruption error; the fuel len(data)+1 is never exhausted.  What is missing for the full statement is a
-   range check in decodeBatch (x > uint64(len(data)-o)), i.e. a change of the code. *)
-Theorem C01_batch_decode_total_partial : forall p data, small_lens data ->
+(* (6b) The decoder on other bytes (FULL): on ARBITRARY bytes — any byte string a Go slice can hold, len(data) < 2^63
+   — Batch.Load returns a batch or a corruption error: it never panics (every index and slice expression of
+   decodeBatch is in range) and it always terminates (the fuel len(data)+1 is never exhausted).  This holds for
+   the code since fix d912a49 (bounds tests "x > uint64(len(data)-o)"); for the code before it see
+   C01_batch_decode_total_refuted below. *)
+Theorem C01_batch_decode_total : forall p data, (lenN data < 2 ^ 63)%N ->
   (exists b, batch_load p data = DOk b) \/ (exists e b, batch_load p data = DErr e b).
 Proof. exact load_total. Qed.
-Print Assumptions C01_batch_decode_total_partial.
+Print Assumptions C01_batch_decode_total.
 
 (* ... and precisely on a CUT encoding (FULL): the first n bytes of the encoding of a record list decode to
    the records that lie wholly before the cut when the cut falls between two records — a shorter batch, NOT
@@ -301,16 +300,22 @@ Theorem C01_batch_decode_prefix : forall p, kparams_ok p -> forall recs n,
 Proof. exact load_prefix. Qed.
 Print Assumptions C01_batch_decode_prefix.
 
-(* the refutation of totality, as witnesses (they are real: Batch.Load on these inputs does not return /
-   panics; known_findings_C01.txt batch-load-huge-varint): 11 bytes on which the decoding loop never
-   advances, for EVERY amount of fuel; inputs on which the model indexes with a negative offset *)
+(* The witnesses of the PRE-FIX behaviour (defect batch-load-huge-varint, repaired in /repo by d912a49; the old
+   decoder is kept in Codec/Batch.v as decode_loop_old / batch_load_old for this statement only): with the bounds
+   tests "o+int(x) > len(data)" totality was false — 11 bytes on which the decoding loop never advanced, for EVERY
+   amount of fuel, and inputs on which it indexed with a negative offset — and on the same inputs the decoder as
+   it is now returns the corruption error. *)
 Theorem C01_batch_decode_total_refuted :
-  (forall fuel i b, decode_loop kp fuel loop_input decode_cb i 0%Z b = DFuel) /\
-  batch_load kp loop_input = DFuel /\
-  batch_load kp [0; 255; 255; 255; 255; 255; 255; 255; 255; 127]%N = DPanic /\
-  batch_load kp [1; 128; 128; 128; 128; 128; 128; 128; 128; 128; 1]%N = DPanic.
+  (forall fuel i b, decode_loop_old kp fuel loop_input decode_cb i 0%Z b = DFuel) /\
+  batch_load_old kp loop_input = DFuel /\
+  batch_load_old kp [0; 255; 255; 255; 255; 255; 255; 255; 255; 127]%N = DPanic /\
+  batch_load_old kp [1; 128; 128; 128; 128; 128; 128; 128; 128; 128; 1]%N = DPanic /\
+  (exists b, batch_load kp loop_input = DErr EKeyLen b) /\
+  (exists b, batch_load kp [0; 255; 255; 255; 255; 255; 255; 255; 255; 127]%N = DErr EKeyLen b) /\
+  (exists b, batch_load kp [1; 128; 128; 128; 128; 128; 128; 128; 128; 128; 1]%N = DErr EKeyLen b).
 Proof.
-  split; [exact (loop_input_never_ends kp eq_refl)|]. repeat split; vm_compute; reflexivity.
+  split; [exact (loop_input_never_ends kp eq_refl)|].
+  repeat split; try (vm_compute; reflexivity); eexists; vm_compute; reflexivity.
 Qed.
 Print Assumptions C01_batch_decode_total_refuted.
 
